@@ -76,6 +76,25 @@ theorem gen_impTcpHeader (s : Sig) (b : Base) (c : Choices) (hf : b.flags < 512)
      generalize s.quirks .push = q6
      simp only [Prod.mk.injEq]
      refine ⟨?_, ?_, ?_, ?_⟩ <;> grind)
+  | (-- another spelling of the flag arithmetic: the 9-bit flag field and the five quirk bits are finite, the flag component is
+     -- decided by an exhaustive kernel check
+     unfold Gen.impTcpHeader impSeq impAck impUrp impFlags
+     simp only [subsetOf_single]
+     generalize s.quirks .zeroSeq = q1
+     generalize s.quirks .nzAck = q2
+     generalize s.quirks .zeroAck = q3
+     generalize s.quirks .nzUrg = q4
+     generalize s.quirks .urg = q5
+     generalize s.quirks .push = q6
+     generalize b.flags = f at hf ⊢
+     simp only [Prod.mk.injEq]
+     refine ⟨?_, ?_, ?_, ?_⟩
+     · grind
+     · grind
+     · revert q2 q3 q4 q5 q6 f
+       unfold impFlagsB setBit clearBit bit F_ACK F_URG F_ECE F_CWR F_NS F_PSH
+       decide +kernel
+     · grind)
 
 
 def codeIpFlags (df mbz : Bool) (f : Nat) : Nat :=
@@ -108,5 +127,27 @@ theorem gen_impIp (s : Sig) (b : Base) (hops : Int) (c : Choices) (hf : b.ipFlag
        simp only [h6', Bool.false_eq_true, if_false, Prod.mk.injEq]
        simp only [true_and, and_true]
        refine ⟨?_, ?_⟩ <;> grind)
+  | (-- the source spells the flag arithmetic differently: the 3-bit flag field and the two quirk bits are finite, so the flag
+     -- component is decided by an exhaustive kernel check instead of by its shape
+     unfold Gen.impIp impIpFields impIpId impIpFlags
+     simp only [subsetOf_single]
+     generalize s.quirks .ecn = q1
+     generalize s.quirks .flow = q2
+     generalize s.quirks .df = q3
+     generalize s.quirks .nzId = q4
+     generalize s.quirks .zeroId = q5
+     generalize s.quirks .nzMbz = q6
+     generalize b.ipFlags = f at hf ⊢
+     by_cases h6 : b.ipVer = 6
+     · simp [h6]
+     · have h6' : (b.ipVer == 6) = false := by simpa using h6
+       simp only [h6', Bool.false_eq_true, if_false, Prod.mk.injEq]
+       simp only [true_and, and_true]
+       refine ⟨?_, ?_⟩
+       · grind
+       · clear h6 h6'
+         revert q3 q6 f
+         unfold impIpFlagsB setBit clearBit bit
+         decide +kernel)
 
 end P0f
